@@ -4,6 +4,7 @@
 //   gencheck --prop C03|C04|C05 --seed S --shard i --nshards n --out report.json [--known f] [--replaydir d]
 //            [--tier quick|thorough] [--replay file]
 #include <cmath>
+#include <functional>
 #include <iostream>
 #include <limits>
 #include <memory>
@@ -278,6 +279,15 @@ static void init_gen(GenRun & gr, const Cfg & c, uint64_t iseed)
 static Res shoot_and_check(Ctx & cx, const Cfg & c, G & g, Tape & tape, size_t & used, bxdecay0::event & ev, double qmax)
 {
   Res r; TapeRandom rr(tape, 0, g_shot_limit);
+  // the event object a user hands to shoot() is not always fresh: as a pure function of the case (tape seed) it is left as the previous shot
+  // left it, or pre-filled like the leftover of ANOTHER generator (other label; particles with or without a reference time)
+  switch (splitmix64(tape.seed ^ 0xE7) % 8) {
+  case 1: { ev = bxdecay0::event(); ev.set_generator("Xx999"); ev.set_time(12.5); bxdecay0::particle p; p.set_code(bxdecay0::ALPHA); p.set_time(3.0); p.set_momentum(9, 8, 7); ev.add_particle(p); ev.add_particle(p); break; }
+  case 2: { ev = bxdecay0::event(); ev.set_generator("Xx999"); bxdecay0::particle p; p.set_code(bxdecay0::GAMMA); p.set_time(2.0); p.set_momentum(1, 2, 3); ev.add_particle(p); break; } // no reference time
+  case 3: { ev = bxdecay0::event(); ev.set_generator("Xx999"); break; }
+  case 4: { ev = bxdecay0::event(); break; }
+  default: break; // as the previous shot left it
+  }
   try { g.shoot(rr, ev); }
   catch (TapeOverrun &) { used = rr.pos; r.ok = false; r.cls = "unbounded-work"; r.msg = "one shot consumed more than " + std::to_string(g_shot_limit) + " deviates"; return r; }
   catch (std::exception & e) { used = rr.pos; r.ok = false; r.cls = "exception"; r.msg = e.what(); return r; }
@@ -369,6 +379,58 @@ static void run_nested(Ctx & cx, const Cfg & base, uint64_t seed)
   cx.rep.count("nested_chains_checked");
 }
 
+
+// ---- toallevents must not depend on what was initialised before (same isotope and mode, another daughter level; then after an unrelated
+// initialisation): the full range reports exactly 1, and a window reports the same ratio whatever preceded it
+static Res hop_case(const Cfg & first, const Cfg & second, uint64_t seed)
+{
+  Res res;
+  { GenRun g0; init_gen(g0, first, mix(seed, 1)); if (!g0.accepted) { res.cls = "skip"; return res; } }
+  double t_after_first;
+  { GenRun g1; init_gen(g1, second, mix(seed, 2)); if (!g1.accepted) { res.cls = "skip"; return res; } t_after_first = g1.g->get_to_all_events(); }
+  Cfg other; other.kind = "dbd"; other.name = first.name == "Se82" ? "Mo100" : "Se82"; other.level = 0; other.mode = (first.mode == 4) ? 5 : 4;
+  { GenRun g2; init_gen(g2, other, mix(seed, 3)); }
+  double t_after_other;
+  { GenRun g3; init_gen(g3, second, mix(seed, 2)); if (!g3.accepted) { res.ok = false; res.cls = "hop-refused"; res.msg = "the same request is accepted, then refused after an unrelated initialisation"; return res; } t_after_other = g3.g->get_to_all_events(); }
+  std::string d = second.name + " L" + std::to_string(second.level) + " M" + std::to_string(second.mode) + (second.win ? " window [" + jnum(second.emin) + "," + jnum(second.emax) + "]" : " full range");
+  if (!second.win && t_after_first != 1.0) { res.ok = false; res.cls = "hop-toall-full!=1"; res.msg = d + " reports toallevents=" + jnum(t_after_first) + " when initialised right after level " + std::to_string(first.level) + " of the same isotope and mode (must be 1)"; return res; }
+  if (std::fabs(t_after_first - t_after_other) > 1e-12 * std::fabs(t_after_other)) { res.ok = false; res.cls = "hop-toall-depends-on-history"; res.msg = d + " reports toallevents=" + jnum(t_after_first) + " right after level " + std::to_string(first.level) + " of the same isotope and mode, and " + jnum(t_after_other) + " after an unrelated initialisation"; return res; }
+  return res;
+}
+static void run_hopping(Ctx & cx, uint64_t seed, bool thorough, const std::function<bool()> & mine)
+{
+  for (auto & n : catalog::dbd_published()) {
+    auto it = REF_DBD.find(n); if (it == REF_DBD.end()) continue; int maxl = (int)it->second.levelE.size() - 1; if (maxl < 1) continue;
+    for (int m = 1; m <= 20; m++) {
+      if (!window_mode(m)) continue;
+      if (!thorough && mix(seed, std::hash<std::string>()(n) + m) % 3 != 0) continue;
+      if (!mine()) continue;
+      // the daughter levels this mode accepts (spin rule, energy): hop between every ordered pair of them
+      std::vector<int> acc; for (int l = 0; l <= maxl; l++) { Cfg c; c.kind = "dbd"; c.name = n; c.level = l; c.mode = m; GenRun g; init_gen(g, c, mix(seed, 77 + l)); if (g.accepted) acc.push_back(l); }
+      for (int la : acc) for (int lb : acc) {
+        if (la == lb) continue;
+        for (int w = 0; w < 2; w++) {
+          Cfg a; a.kind = "dbd"; a.name = n; a.level = la; a.mode = m; Cfg b = a; b.level = lb;
+          if (w) { double e0 = it->second.Q - it->second.levelE[lb] / 1000.0; if (it->second.Z < 0) e0 -= 4 * EMASS; if (m == 10) e0 -= it->second.EK[lb] + 2 * EMASS; if (e0 < 0.2) continue; b.win = true; b.emin = std::round(0.3 * e0 * 1000) / 1000; b.emax = std::round(0.8 * e0 * 1000) / 1000; }
+          uint64_t cs = mix(seed, std::hash<std::string>()(a.key() + b.key()));
+          Res r = hop_case(a, b, cs); if (r.cls == "skip") continue;
+          cx.rep.evaluations++;
+          if (!r.ok) {
+            std::string sig = cx.prop + "|" + b.name + "|L" + std::to_string(la) + ">L" + std::to_string(lb) + "|M" + std::to_string(m) + "|" + r.cls;
+            std::string kid = cx.known.match(cx.prop, sig);
+            if (!kid.empty()) { cx.rep.known[kid]++; continue; }
+            std::string js = "{\"property\":\"" + cx.prop + "\",\"hopping\":{\"first\":" + a.json() + ",\"second\":" + b.json() + ",\"case_seed\":\"" + std::to_string(cs) + "\"},\"sig\":" + jstr(sig) + ",\"msg\":" + jstr(r.msg) + "}\n";
+            std::string path = cx.replaydir + "/" + cx.prop + "-" + hash_name(sig + js) + ".json";
+            std::ofstream(path) << js; cx.rep.failures.push_back({sig, r.msg, path});
+            continue;
+          }
+          cx.rep.nt(a.key() + ">" + b.key() + "|hop"); cx.rep.label(std::string("hop:") + (w ? "window" : "full"));
+        }
+      }
+    }
+  }
+}
+
 // ------------------------------------------------------------------ config enumeration
 static std::vector<Cfg> dbd_grid()
 {
@@ -448,6 +510,7 @@ static int run_c03_c04(Ctx & cx, const Args & a)
       }
     }
   }
+  if (!is04) run_hopping(cx, seed, thorough, mine);
   return 0;
 }
 
@@ -629,6 +692,7 @@ static int run_replay(Ctx & cx, const std::string & file)
 {
   JV j = jload(file);
   if (j.has("catalogue")) { printf("catalogue finding: re-run the check (deterministic)\n"); return 3; }
+  if (j.has("hopping")) { const JV & h = j.at("hopping"); Res r = hop_case(Cfg::from(h.at("first")), Cfg::from(h.at("second")), strtoull(h.s("case_seed", "0").c_str(), nullptr, 10)); if (!r.ok) { printf("REPLAY-FAIL class=%s %s\n", r.cls.c_str(), r.msg.c_str()); return 1; } printf("REPLAY-PASS\n"); return 0; }
   Cfg c = Cfg::from(j.at("config"));
   Tape tape; tape.seed = strtoull(j.s("tape_seed", "0").c_str(), nullptr, 10);
   if (j.has("profile")) { auto p = jtape_read(j.at("profile")); if (p.size() == 4) { tape.prof.p_plain = p[0]; tape.prof.w_low = p[1]; tape.prof.w_high = p[2]; tape.prof.w_dict = p[3]; } }
